@@ -191,6 +191,8 @@ def stage(rep, prop, bdir, seed, t, workloads=None):
     nw = workloads or (320 if t == "quick" else 20000)
     na = max(NWORKERS, nw // 4)
     tf = 0 if t == "quick" else 1
+    if prop == "C13":
+        tf = 2          # fault-heavy variants: every run carries an allocation / compressor / write fault
     master = derive(seed, "blockproc", prop) >> 1
     nchunks = NWORKERS * (1 if t == "quick" else 8)
     step = (nw + nchunks - 1) // nchunks
